@@ -25,7 +25,8 @@ ClassForms == {"plain", "nested", "property", "property-setter", "overload", "ov
                "class-attr-forms", "slots", "init-tuple-unpack", "multiple-inheritance", "private-base", "metaclass", "inner-function", "global-assign", "async-def", "decorated",
                "subscript-assign", "starred-assign", "private-foreign-base", "foreign-base-with-private-ancestors", "generic-named-like-builtin", "strenum-flag",
                "attribute-docstrings", "redefinition", "init-conditional-attrs",
-               "subscripted-typing-base", "namespace-base", "enum-subscript-assign", "enum-nested-tuple-target", "variable-as-annotation"}
+               "subscripted-typing-base", "namespace-base", "enum-subscript-assign", "enum-nested-tuple-target", "variable-as-annotation",
+               "enum-via-module-with-methods", "nested-subscript-typing-base", "protocol-overloads-only", "self-typevar-inferred", "code-after-module-raise"}
 Reexports == {"name", "alias", "star", "module", "modalias", "absolute-name", "all-list", "type-checking-import",
               "modalias-and-star", "name-and-alias-of-one-declaration"}       \* one module / declaration re-exported twice by the same __init__
 Foreign == {"one-segment", "two-segment", "three-segment", "generic", "as-superclass", "typing-special"}
